@@ -18,6 +18,9 @@ def instances(tier):
         out.append({'entry': 'h_layout', 'params': [w], 'bound': 'document %d with every choice of two gaps and whitespace separators (space, LF, TAB CR LF)' % w})
     for d, o in ((1, 0), (8, 0), (64, 0), (512, 0), (8, 1), (64, 1)) if q else ((1, 0), (8, 0), (64, 0), (512, 0), (600, 0), (8, 1), (64, 1), (512, 1)):
         out.append({'entry': 'h_nest', 'params': [d, o], 'opts': {'maxsteps': 20000000}, 'bound': '%s nested %d deep around any digit' % ('objects' if o else 'arrays', d)})
+    for kl in ((1, 15, 16, 17) if q else (1, 7, 8, 14, 15, 16, 17, 24, 33)):
+        for xdl in (0, 1):
+            out.append({'entry': 'h_longkey', 'params': [kl, xdl], 'bound': 'object with one member whose name has %d characters, first and last symbolic (%s)' % (kl, 'XDL' if xdl else 'JSON')})
     return out
 
 
